@@ -147,14 +147,17 @@ theorem lastDecl_some_of_mem (defs : List OptDecl) (o : OptDecl) (h : o ∈ defs
 
 /-- the raw (unparsed) fields and friends a macro contributes: those of its inclusions, then its own —
     the text one would write when expanding the macro by hand -/
-def rawMacro : Nat → AList RMacro → List String → String → Except Err (List (String × RDef) × List RStmt)
-  | 0, _, _, _ => .error .fuel
-  | f + 1, ms, parents, name =>
+def rawMacro : Nat → AList RMacro → List String → List String → String →
+    Except Err (List (String × RDef) × List RStmt)
+  | 0, _, _, _, _ => .error .fuel
+  | f + 1, ms, exp, parents, name =>
     match ms.lookup name with
     | none => .error (.noMacro name)
     | some m =>
-      if parents.contains name then .error (.macroCycle parents name) else
-      match mapE (fun n => rawMacro f ms (parents ++ [name]) n) m.incl with
+      match cycleErr exp parents name with
+      | some e => .error e
+      | none =>
+      match mapE (fun n => rawMacro f ms (exp ++ [name]) (parents ++ [name]) n) m.incl with
       | .error e => .error e
       | .ok incs => .ok (incs.flatMap (·.1) ++ m.fields, incs.flatMap (·.2) ++ m.friends)
 
@@ -166,15 +169,19 @@ theorem mapE_flatten {β γ ε : Type} (g : β → Except ε γ) (ls : List (Lis
   | cons hx _ ih =>
     simp only [List.flatten_cons, mapE_append, hx, ih]
 
-/-- the parsed (un-de-duplicated) contribution of a macro is the parse of its raw contribution -/
+theorem SubStack.append_left (e : List String) (n : String) : SubStack e (e ++ [n]) :=
+  fun _ h => List.mem_append.mpr (Or.inl h)
+
+/-- the parsed (un-de-duplicated) contribution of a macro is the parse of its raw contribution, at the
+    stack of the including template (the macro itself no longer on it) -/
 theorem flatMacro_eq_parse_raw (ms : AList RMacro) (f : Nat) :
-    ∀ ps n r, flatMacro f ms ps n = .ok r →
-      ∃ raw, rawMacro f ms ps n = .ok raw ∧ mapE (pField f ms) raw.1 = .ok r.1 ∧
-        mapE (fun s => pStmt f ms s) raw.2 = .ok r.2 := by
+    ∀ e ps n r, flatMacro f ms e ps n = .ok r →
+      ∃ raw, rawMacro f ms e ps n = .ok raw ∧ mapE (pField f ms e) raw.1 = .ok r.1 ∧
+        mapE (fun s => pStmt f ms e s) raw.2 = .ok r.2 := by
   induction f with
-  | zero => intro ps n r h; simp [flatMacro] at h
+  | zero => intro e ps n r h; simp [flatMacro] at h
   | succ f ih =>
-    intro ps n r h
+    intro e ps n r h
     rw [flatMacro] at h
     rw [rawMacro]
     cases hl : ms.lookup n with
@@ -182,30 +189,32 @@ theorem flatMacro_eq_parse_raw (ms : AList RMacro) (f : Nat) :
     | some m =>
       rw [hl] at h
       simp only at h ⊢
-      by_cases hc : ps.contains n = true
-      · rw [if_pos hc] at h; cases h
-      · rw [if_neg hc] at h ⊢
-        cases h1 : mapE (fun x => flatMacro f ms (ps ++ [n]) x) m.incl with
-        | error e => rw [h1] at h; cases h
+      cases hc : cycleErr e ps n with
+      | some x => rw [hc] at h; cases h
+      | none =>
+        rw [hc] at h
+        simp only at h ⊢
+        have hsub := SubStack.append_left e n
+        cases h1 : mapE (fun x => flatMacro f ms (e ++ [n]) (ps ++ [n]) x) m.incl with
+        | error x => rw [h1] at h; cases h
         | ok incs =>
           rw [h1] at h
-          cases h2 : mapE (pField f ms) m.fields with
-          | error e => rw [h2] at h; cases h
+          cases h2 : mapE (pField f ms (e ++ [n])) m.fields with
+          | error x => rw [h2] at h; cases h
           | ok own =>
             rw [h2] at h
-            cases h3 : mapE (fun s => pStmt f ms s) m.friends with
-            | error e => rw [h3] at h; cases h
+            cases h3 : mapE (fun s => pStmt f ms (e ++ [n]) s) m.friends with
+            | error x => rw [h3] at h; cases h
             | ok ofr =>
               rw [h3] at h
               simp only [Except.ok.injEq] at h
               subst h
-              -- the raw contributions of the inclusions
               have hraws : ∀ (names : List String) (incs : List Incl),
-                  mapE (fun x => flatMacro f ms (ps ++ [n]) x) names = .ok incs →
-                  ∃ raws, mapE (fun x => rawMacro f ms (ps ++ [n]) x) names = .ok raws ∧
-                    List.Forall₂ (fun l r => mapE (pField (f + 1) ms) l = .ok r)
+                  mapE (fun x => flatMacro f ms (e ++ [n]) (ps ++ [n]) x) names = .ok incs →
+                  ∃ raws, mapE (fun x => rawMacro f ms (e ++ [n]) (ps ++ [n]) x) names = .ok raws ∧
+                    List.Forall₂ (fun l r => mapE (pField (f + 1) ms e) l = .ok r)
                       (raws.map (·.1)) (incs.map (·.1)) ∧
-                    List.Forall₂ (fun l r => mapE (fun s => pStmt (f + 1) ms s) l = .ok r)
+                    List.Forall₂ (fun l r => mapE (fun s => pStmt (f + 1) ms e s) l = .ok r)
                       (raws.map (·.2)) (incs.map (·.2)) := by
                 intro names
                 induction names with
@@ -217,32 +226,32 @@ theorem flatMacro_eq_parse_raw (ms : AList RMacro) (f : Nat) :
                 | cons x rest ihn =>
                   intro incs hi
                   simp only [mapE] at hi
-                  cases hx : flatMacro f ms (ps ++ [n]) x with
-                  | error e => rw [hx] at hi; cases hi
+                  cases hx : flatMacro f ms (e ++ [n]) (ps ++ [n]) x with
+                  | error y => rw [hx] at hi; cases hi
                   | ok ix =>
                     rw [hx] at hi
-                    cases hr : mapE (fun x => flatMacro f ms (ps ++ [n]) x) rest with
-                    | error e => rw [hr] at hi; cases hi
+                    cases hr : mapE (fun x => flatMacro f ms (e ++ [n]) (ps ++ [n]) x) rest with
+                    | error y => rw [hr] at hi; cases hi
                     | ok irest =>
                       rw [hr] at hi
                       simp only [Except.ok.injEq] at hi
                       subst hi
-                      obtain ⟨rawx, g1, g2, g3⟩ := ih (ps ++ [n]) x ix hx
+                      obtain ⟨rawx, g1, g2, g3⟩ := ih (e ++ [n]) (ps ++ [n]) x ix hx
                       obtain ⟨raws, k1, k2, k3⟩ := ihn irest hr
                       refine ⟨rawx :: raws, by simp [mapE, g1, k1], ?_, ?_⟩
                       · exact List.Forall₂.cons
-                          (mapE_mono _ _ _ _ (fun y _ r hy => pField_mono ms f (f + 1) (by omega) y r hy) g2) k2
+                          (mapE_mono _ _ _ _ (fun y _ r hy => pField_step ms f _ e hsub y r hy) g2) k2
                       · exact List.Forall₂.cons
-                          (mapE_mono _ _ _ _ (fun y _ r hy => pStmt_mono ms f (f + 1) (by omega) y r hy) g3) k3
+                          (mapE_mono _ _ _ _ (fun y _ r hy => pStmt_step ms f _ e hsub y r hy) g3) k3
               obtain ⟨raws, k1, k2, k3⟩ := hraws m.incl incs h1
               rw [k1]
               refine ⟨_, rfl, ?_, ?_⟩
               · simp only [concatIncl, List.flatMap_def]
                 rw [mapE_append, mapE_flatten _ _ _ k2,
-                  mapE_mono _ _ _ own (fun y _ r hy => pField_mono ms f (f + 1) (by omega) y r hy) h2]
+                  mapE_mono _ _ _ own (fun y _ r hy => pField_step ms f _ e hsub y r hy) h2]
               · simp only [concatIncl, List.flatMap_def]
                 rw [mapE_append, mapE_flatten _ _ _ k3,
-                  mapE_mono _ _ _ ofr (fun y _ r hy => pStmt_mono ms f (f + 1) (by omega) y r hy) h3]
+                  mapE_mono _ _ _ ofr (fun y _ r hy => pStmt_step ms f _ e hsub y r hy) h3]
 
 theorem mapE_flatMap_of_forall2 {ι κ β γ ε : Type} (g : β → Except ε γ) (p : ι → List β) (q : κ → List γ)
     (xs : List ι) (ys : List κ) (h : List.Forall₂ (fun x y => mapE g (p x) = .ok (q y)) xs ys) :
